@@ -337,12 +337,17 @@ func (f *fctx[S, P]) runSolve(c *Case, right bool) *Pending {
 		xs = f.bigs(slices.Collect(x.Iter()))
 		var prod *mat.Matrix[S]
 		var e error
-		if right {
-			prod, e = m.TryMul(x)
-		} else {
-			prod, e = x.Transpose().TryMul(m)
-		}
-		if e != nil || !prod.Equal(vm) {
+		pc := "ok"
+		safely(&pc, func() {
+			if right {
+				prod, e = m.TryMul(x)
+			} else {
+				prod, e = x.Transpose().TryMul(m)
+			}
+		})
+		if pc == "panic" {
+			p.prop = "TryMul panicked while recomputing the product for " + name
+		} else if e != nil || !prod.Equal(vm) {
 			p.prop = name + " returned x that does not satisfy the system (recomputed with the implementation's own TryMul)"
 		} else if ok := refResidual(f.q, M, xs, v, right); !ok {
 			p.prop = name + " returned x that does not satisfy the system (recomputed with math/big)"
@@ -599,6 +604,9 @@ func (f *fctx[S, P]) runMisc(c *Case) *Pending {
 			got = f.unmat(r).text()
 		})
 		p.triv = A.R != B.R
+		if class == "ok" && (A.R != B.R || got != refAugment(A, B).text()) {
+			p.prop = "Augment is not [A | B]"
+		}
 		p.lines = []string{f.line("AUGMENT", A.text(), B.text())}
 	case "MINOR":
 		M, r, cc := c.mat(0), c.int(1), c.int(2)
@@ -612,6 +620,9 @@ func (f *fctx[S, P]) runMisc(c *Case) *Pending {
 			got = f.unmat(x).text()
 		})
 		p.triv = class != "ok"
+		if class == "ok" && (r >= M.R || cc >= M.C || M.R < 2 || M.C < 2 || got != refMinor(M, r, cc).text()) {
+			p.prop = "Minor is not the matrix with that row and column removed"
+		}
 		p.lines = []string{f.line("MINOR", M.text(), c.Args[1], c.Args[2])}
 	case "SETCOL":
 		M, cc, d := c.mat(0), c.int(1), c.vec(2)
@@ -625,6 +636,9 @@ func (f *fctx[S, P]) runMisc(c *Case) *Pending {
 			got = f.unmat(x).text()
 		})
 		p.triv = class != "ok"
+		if class == "ok" && (cc >= M.C || len(d) != M.R || got != refSetCol(M, cc, d).text()) {
+			p.prop = "SetColumn is not the matrix with that column replaced"
+		}
 		p.lines = []string{f.line("SETCOL", M.text(), c.Args[1], vecText(d))}
 	case "DOT":
 		a, b := c.vec(0), c.vec(1)
